@@ -26,6 +26,7 @@ def main : IO UInt32 := do
   | ["model", "codec"] => loopState stdin stdout Codec.driverStep {}
   | ["model", "cfg"] => loopState stdin stdout Cfg.driverStep {}
   | ["model", "interval"] => loopState stdin stdout Interval.driverStep ⟨0, []⟩
+  | ["model", "auxtable"] => loopState stdin stdout AuxTable.driverStep {}
   | _ => IO.eprintln s!"unknown model line: {first}"; return 2
   stdout.flush
   return 0
